@@ -248,6 +248,35 @@ pub fn run_block(cfg: &Cfg, out: &mut Out, extra_after: usize) -> usize {
     }
 }
 
+/// the first `n` showdowns of a configuration that is too large to drain; the block ends with `abandon`
+pub fn run_prefix(cfg: &Cfg, out: &mut Out, n: usize) {
+    out.line(&format!("{{\"op\":\"new\",{}}}", cfg.json_fields()));
+    let c = cfg.clone();
+    let res = guarded(move || {
+        let mut lines = vec![];
+        let mut it = c.evaluator().into_iter();
+        for _ in 0..n {
+            match it.next() {
+                Some(sd) => lines.push(next_json(&sd)),
+                None => {
+                    lines.push("{\"op\":\"none\"}".to_string());
+                    return lines;
+                }
+            }
+        }
+        lines.push("{\"op\":\"abandon\"}".to_string());
+        lines
+    });
+    match res {
+        Some(lines) => {
+            for l in lines {
+                out.line(&l);
+            }
+        }
+        None => out.line("{\"op\":\"panic\"}"),
+    }
+}
+
 /// all 1326 combos in a fixed order, weights cycling through the dyadic table
 pub fn all_combos() -> Vec<Entry> {
     let mut v = vec![];
@@ -279,6 +308,31 @@ pub fn record_c02(args: &Args, mut out: Out) -> usize {
             _ => { let mut c = random_cfg(&mut rng, 2, 3, 10); c.scoped = false; c.from = (0, 1); c.to = (48, 49); c }  // complete run
         };
         run_block(&cfg, &mut out, 2);
+    }
+    // many players with one or two combos each (a flop leaves room for 23), and no player at all
+    for &np in &[0usize, 5, 10, 17, 22, 23] {
+        let f = rng.distinct(3, 52);
+        let free: Vec<usize> = { let mut v: Vec<usize> = (0..52).filter(|c| !f.contains(c)).collect(); rng.shuffle(&mut v); v };
+        let mut ranges: Vec<Vec<Entry>> = vec![];
+        for p in 0..np {
+            let (a, b) = norm(free[2 * p], free[2 * p + 1]);
+            let mut r = vec![Entry { a, b, m: 1, e: (p % 3) as u32 }];
+            if np <= 10 && rng.chance(1, 2) {
+                let (a2, b2) = norm(free[(2 * p + 3) % free.len()], free[(2 * p + 8) % free.len()]);
+                if (a2, b2) != (a, b) && a2 != b2 {
+                    r.push(Entry { a: a2, b: b2, m: 3, e: 2 });
+                }
+            }
+            ranges.push(r);
+        }
+        let full = Cfg { flop: [f[0], f[1], f[2]], ranges, from: (0, 1), to: (48, 49), scoped: false };
+        run_block(&full, &mut out, 1);
+        let mut w = full.clone();
+        let (from, to) = random_window(&mut rng, 40);
+        w.from = from;
+        w.to = to;
+        w.scoped = true;
+        run_block(&w, &mut out, 1);
     }
     if big {
         // ranges around the u8 boundary and the full range, one to three positions
@@ -398,6 +452,17 @@ pub fn drain_cases(args: &Args, mut out: Out) -> usize {
             (0..np).map(|p| one(free[2 * p], free[2 * p + 1])).collect()
         };
         cases.push((format!("{} players with one combo each, full run", np), Cfg { flop, ranges, from: (0, 1), to: (48, 49), scoped: false }));
+    }
+    // no player at all; huge tables whose last player has no hands (nothing to enumerate, whatever the product of the sizes)
+    cases.push(("no players, full run".into(), Cfg { flop, ranges: vec![], from: (0, 1), to: (48, 49), scoped: false }));
+    cases.push(("no players, scoped".into(), Cfg { flop, ranges: vec![], from: (0, 1), to: (6, 26), scoped: true }));
+    {
+        let mut r7: Vec<Vec<Entry>> = (0..7).map(|_| shuffled.clone()).collect();
+        r7.push(vec![]);
+        cases.push(("seven full ranges, then an empty one".into(), Cfg { flop, ranges: r7, from: (0, 1), to: (48, 49), scoped: false }));
+        let mut r64: Vec<Vec<Entry>> = (0..64).map(|p| shuffled[2 * p..2 * p + 2].to_vec()).collect();
+        r64.push(vec![]);
+        cases.push(("64 two-combo ranges, then an empty one".into(), Cfg { flop, ranges: r64, from: (0, 1), to: (48, 49), scoped: false }));
     }
     // three and four players, mid-size ranges, a few positions
     cases.push(("three players 20x20x20".into(), Cfg { flop, ranges: vec![shuffled[..20].to_vec(), shuffled[10..30].to_vec(), shuffled[25..45].to_vec()], from: (5, 6), to: (5, 9), scoped: true }));
